@@ -85,6 +85,9 @@ type Term struct {
 
 // TB is a term bank (hash-consing table plus declarations).
 type TB struct {
+	// Distinct holds pairs of terms known to be different while a spec is evaluated under a case split
+	// (key: smaller ID, larger ID); consulted by Eq so that reads over writes at the other index simplify.
+	Distinct map[[2]int]bool
 	tab    map[string]*Term
 	nextID int
 	Decls  map[string]*Decl // declared constants and functions
@@ -344,6 +347,10 @@ func (tb *TB) Implies(a, b *Term) *Term {
 	if b.IsFalse() {
 		return tb.Not(a)
 	}
+	// (=> a (=> b c))  ==  (=> (and a b) c)
+	if b.Op == "=>" {
+		return tb.Implies(tb.And(a, b.Args[0]), b.Args[1])
+	}
 	return tb.intern(&Term{Op: "=>", Args: []*Term{a, b}, Sort: SBool})
 }
 
@@ -358,6 +365,20 @@ func (tb *TB) Eq(a, b *Term) *Term {
 	}
 	if a.Op == "int" && b.Op == "int" {
 		return tb.Bool(a.Int.Cmp(b.Int) == 0)
+	}
+	if len(tb.Distinct) > 0 && a.Sort == SInt {
+		x, y := a, b
+		// (+ c x) vs (+ c y): compare x and y
+		for x.Op == "+" && y.Op == "+" && len(x.Args) == 2 && len(y.Args) == 2 && x.Args[0] == y.Args[0] {
+			x, y = x.Args[1], y.Args[1]
+		}
+		k := [2]int{x.ID, y.ID}
+		if k[0] > k[1] {
+			k[0], k[1] = k[1], k[0]
+		}
+		if tb.Distinct[k] {
+			return tb.False()
+		}
 	}
 	if a.Sort == SBool {
 		if a.IsTrue() {
@@ -397,6 +418,14 @@ func (tb *TB) Eq(a, b *Term) *Term {
 }
 
 func (tb *TB) Neq(a, b *Term) *Term { return tb.Not(tb.Eq(a, b)) }
+
+// Neq2 builds (not (= a b)) without consulting the Distinct hints.
+func (tb *TB) Neq2(a, b *Term) *Term {
+	saved := tb.Distinct
+	tb.Distinct = nil
+	defer func() { tb.Distinct = saved }()
+	return tb.Not(tb.Eq(a, b))
+}
 
 // splitOffset decomposes t into base + k when t is (+ base k) with literal k.
 func splitOffset(t *Term) (*Term, *big.Int) {
